@@ -178,7 +178,7 @@ resolve_addr = Fn(
         C("inside_bank_in_last_pass",
           "res == %s && ctx.is_last_iteration ==> %s.address.val() >= bank_of(old(defs), ctx.bank_ref).addr_start.val()"
           " && (bank_of(old(defs), ctx.bank_ref).size is Some ==> (%s.address.val() - bank_of(old(defs), ctx.bank_ref).addr_start.val()) * bank_of(old(defs), ctx.bank_ref).addr_unit < bank_of(old(defs), ctx.bank_ref).size->0)"
-          % (STABLE, idx("addr_directives", "ast_addr"), idx("addr_directives", "ast_addr")), ["C06"]),
+          % (STABLE, idx("addr_directives", "ast_addr"), idx("addr_directives", "ast_addr")), ["C06", "C01"]),
         C("banks_untouched", "final(defs).bankdefs == old(defs).bankdefs", ["C02"]),
     ],
     rewrites=[R7],
